@@ -240,7 +240,7 @@ class ActionWalker(xtuml.Walker):
         xtuml.unrelate(using_inst, to_inst, node.rel_id, node.phrase.replace("'", ''))
         
     def accept_SelectFromNode(self, node):
-        if node.cardinality == 'many':
+        if node.many:
             handle = self.domain.select_many(node.key_letter)
         else:
             handle = self.domain.select_any(node.key_letter)
@@ -259,7 +259,7 @@ class ActionWalker(xtuml.Walker):
             self.symtab.leave_block()
             return value.fget()
         
-        if node.cardinality == 'many':
+        if node.many:
             handle = self.domain.select_many(node.key_letter, where)
         else:
             handle = self.domain.select_any(node.key_letter, where)
@@ -268,7 +268,7 @@ class ActionWalker(xtuml.Walker):
             
     def accept_SelectRelatedNode(self, node):
         handle = self.accept(node.handle).fget()
-        if node.cardinality == 'many':
+        if node.many:
             chain = xtuml.navigate_many(handle)
         else:
             chain = xtuml.navigate_one(handle)
@@ -287,7 +287,7 @@ class ActionWalker(xtuml.Walker):
             return value.fget()
         
         handle = self.accept(node.handle).fget()
-        if node.cardinality == 'many':
+        if node.many:
             chain = xtuml.navigate_many(handle)
         else:
             chain = xtuml.navigate_one(handle)
